@@ -8,6 +8,31 @@ TRUSTED = ("Trusted base: go/types+go/ssa construction of the verified text, the
            "assumed contracts of external functions are listed per run in the evidence file (assumptions[]).")
 
 claimed = {
+ "C19": dict(
+   text="Race-freedom is decided through frame conditions proved on the real code: a call that writes no memory existing before the call cannot race with another such call, and a result that is a function of the argument VALUES cannot depend on concurrent readers. "
+        "Proved (`assigns` clauses, every store, map update, call and C call checked against them): (*kmac128).ComputeHash writes nothing that exists at entry (it works on a clone; Clone/Write/Read of the cSHAKE state per the assumed x/crypto contract) and leaves the shared sponge ghost state unchanged; "
+        "(*prKeyBLSBLS12381).Sign, (*pubKeyBLSBLS12381).Verify, BLSVerifyPOP (which shares the package-level popKMAC hasher), SPOCKVerify write no existing memory: keys (`unchanged(pk.point)`, `unchanged(pk.isIdentity)`), message and signature buffers are outside the frame, results are fresh buffers, and the hasher is only used through ComputeHash whose interface contract leaves its configuration untouched; "
+        "the C functions they reach (bls_sign, bls_verify, bls_spock_verify, E1/E2 readers and writers) are verified from the clang AST to write only their out-parameters and locals. Each function's postcondition gives the result as a function of the argument values, hence `what it returns when run alone`. "
+        "NOT covered: aggregate verification (VerifyBLSSignatureOneMessage/ManyMessages), batch verification and ECDSA Sign/Verify (not under contract); a Hasher other than KMAC128 is only known through the interface contract (its ComputeHash may write its own state, which is why the property asks for per-goroutine hashers there).",
+   note=TRUSTED + " The Go memory model is not modelled: `no write to pre-existing memory => no data race` is the paper step. BLST primitives are assumed to write only their out-parameters (const-qualified parameters are assumed unwritten: default leaf contract).",
+   design="§0.2, §5 C19"),
+ "C18": dict(
+   text="Lock discipline and sequential specification of the stateful threshold-signature object, proved on the real methods of blsThresholdSignatureInspector/Participant: "
+        "(1) every read of the guarded fields `shares` and `thresholdSignature` (including every map lookup, range and len on the share map) happens while this caller holds s.lock in read or write mode and every write (field store, map update) while it holds the write lock "
+        "(ghost field `mode` of sync.RWMutex, assumed contract of Lock/Unlock/RLock/RUnlock incl. no double acquisition; obligations `lock:read:*`/`lock:write:*` generated at each access); the remaining fields are proved never written after construction (`immutable`), so the lock-free helpers (SignShare, VerifyShare, VerifyThresholdSignature) only read immutable state; "
+        "(2) every public method has exactly one critical section (ghost acquisition counter) and returns with the lock released on every path, incl. the early error returns (defers modelled); "
+        "(3) the sequential semantics: invariant `at most t+1 shares, one per signer index < n, cached signature has length 48` holds initially and is preserved by every method; shares are never removed or replaced, EnoughShares never reverts, TrustedAdd/VerifyAndAdd add exactly when new / (valid and) not yet enough with the exact error classes, VerifyAndAdd never stores a share whose verification verdict is false, "
+        "ThresholdSignature caches only a reconstructed signature that verified under the group key and returns the cached slice on every later call. "
+        "Linearizability itself (each critical section appears atomic, real-time order) is the semantics of RWMutex applied to (1)-(3): a paper step, not machine-checked; no interleaving is explored.",
+   note=TRUSTED + " sync.RWMutex is an assumed contract (contracts/trusted/sync.spec) seen from one caller; other threads are not modelled; the Go memory model is not modelled. E1_lagrange_interpolate_at_zero_write is an assumed C contract (memory footprint only).",
+   design="§0.2, §5 C18"),
+ "C06": dict(
+   text="Validation and safety part of threshold signatures: BLSReconstructThresholdSignature rejects, with the exact error class, sizes/thresholds out of range, mismatched lists, fewer than t+1 shares, out-of-range and duplicate signers (map-based distinctness proved as a loop invariant) and shares whose length is not 48 (fix F6), and only then calls the C layer with buffers proved large enough ((t+1)*48 bytes, t+1 indices); "
+        "the stateful object never returns a threshold signature whose verification under the group key was false (reconstruct-then-verify postcondition `never-an-unverified-signature`), reports not-enough-shares exactly when fewer than t+1 shares are held, and BLSThresholdKeyGen validates its parameters and returns n private / public BLS key shares with truthful identity flags. "
+        "The C interpolation path (E1_lagrange_interpolate_at_zero_write, E1_lagrange_interpolate_at_zero, Fr_lagrange_coeff_at_zero, Fr_polynomial_image) is verified from the clang AST for memory safety and frames, and for Fr_lagrange_coeff_at_zero additionally that the 64-bit limb products of the batched index differences never wrap around (`nowrap` obligations under the inductive bound 255^(factors so far), at most 8 factors per limb). "
+        "NOT decided: that the shares are images of one degree-t polynomial, that the value computed by Fr_lagrange_coeff_at_zero is the Lagrange coefficient (sign tracking, the field operations are uninterpreted) and that reconstruction yields the same bytes for every signer subset.",
+   note=TRUSTED + " Interpolation correctness is not covered; see text.",
+   design="§0.2, §5 C06"),
  "C01": dict(
    text="The acceptance set of BLS verification is derived, contract by contract, from the real Go and C code: Verify returns result0 == (g1canon(s) && inG1(g1pt(s)) && e(g1pt(s), -g2) * e(H, pk) == 1) with H = map_to_G1 of the hasher output, for every 48-byte s, every message and every hasher with the KMAC configuration ghost; "
         "every other length, nil/ill-configured hasher and the identity flag give (false, nil) or the documented error. The C layer is verified from the clang AST: E1_read_bytes accepts exactly the canonical ZCash compressed encodings (flag bits, x < p, on-curve via sqrt, sign selection, infinity = 0xC0 then 47 zero bytes) and returns the decoded point, "
